@@ -60,6 +60,7 @@ def run(ck, fb):
     r11f(ck, fb)
     r11g(ck, fb)
     r11h(ck, fb)
+    r11i(ck, fb)
 
 
 def _run0(ck, fb):
@@ -440,3 +441,62 @@ def r11h(ck, fb, R='R11h'):
                    '%s sets the healthy flag of an instance it stores and never touches healthy_instance_size: the healthy count reported for the '
                    'service differs from the number of healthy instances returned from then on' % b.name, 'counter written')
     ck.floor(R, 'Service methods that flip and store', n, 2)
+
+
+def r11i(ck, fb, R='R11i'):
+    ck.rule(R, 'an instance is filed under the client it belongs to, and only while it does: (a) wherever naming code makes a stored instance local '
+               '(assigns the literal 0 to from_cluster: ownership by range in NamingActor::update_instance, take-over in '
+               'Service::do_refresh_process_range) it also assigns client_id in the same function - the synthetic id "<node>_G" of the old owner '
+               'must not stay on an instance this node now expires by its own clock, whose removal in Service::time_check never visits the owner '
+               'index; the take-over hands the released ids back and NamingActor::refresh_process_range removes them from client_instance_set; '
+               '(b) NamingActor::update_instance files the key under the incoming client id before Service::update_instance may decide to keep '
+               'the previous owner (HTTP copy of a gRPC-registered address): afterwards it compares the stored instance\'s client_id with the '
+               'incoming one and takes the key out of the incoming client\'s set when they differ')
+    n = 0
+    for b in fb.bodies.values():
+        if not (b.name.startswith('rnacos::naming::') or b.name.startswith('<rnacos::naming::')) or '::tests::' in b.name or 'probe' in b.name or 'seeded_demo' in b.name:
+            continue
+        z = []
+        for (o, f, bb, st) in b.field_writes():
+            if f == 'from_cluster' and o.endswith('naming::model::Instance') and st['rv']['k'] == 'use' and 'c' in st['rv']['op'] and str(st['rv']['op']['c'].get('v')) == '0':
+                z.append(bb)
+        if not z or b.name.endswith('::from_do') or '::new' in b.name.split('::')[-1] or 'Default' in b.name:
+            continue
+        n += 1
+        ck.analysed(b)
+        cw = [bb for (o, f, bb, st) in b.field_writes() if f == 'client_id' and o.endswith('naming::model::Instance')]
+        ck.require(bool(cw), R, '%s:local-instance-has-no-foreign-client' % fb.root_of(b.name).split('::')[-1], b.where(z[0]),
+                   '%s makes a stored instance local (from_cluster = 0) and leaves its client_id: the instance stays filed under the old owner\'s client '
+                   '("2_G -> 10.0.0.7:8080"), its time-out removal does not clear that entry (the index lists an instance that does not exist), and '
+                   'a later RemoveClientFromCluster for the old owner removes an instance this node owns' % fb.root_of(b.name), 'client_id assigned too')
+    ck.floor(R, 'functions that make an instance local', n, 2)
+    rp = ck.body(NA + 'refresh_process_range', R)
+    if rp:
+        reg = util.region(fb, rp)
+        rel = [s for x in reg for s in x.calls(re.escape(NA + 'remove_client_instance_key') + '$')] + \
+              [s for x in reg for s in util.mut_calls_on_field(x, 'client_instance_set', r'HashMap::<K, V, S, A>::(get_mut|remove|entry)$')]
+        ck.require(bool(rel), R, 'refresh_process_range:releases-owner-index', rp.where(),
+                   'a take-over never touches client_instance_set: the taken-over instances stay listed for the old owner\'s client')
+    u = ck.body(NA + 'update_instance', R)
+    if u:
+        tk = Taint(u, call_src=lambda t: (t.get('f') or {}).get('d', '').endswith('InstanceKey::new_by_service_key'))
+        tr = Taint(u, call_src=lambda t: (t.get('f') or {}).get('d', '').endswith('Service::update_instance'))
+        ok = False
+        for s in u.calls(r'HashSet::<T, S, A>::remove$'):
+            if len(s.args) < 2 or not tk.op_tainted(s.args[1]):
+                continue
+            atoms = cfg.guard_atoms(u, s.bb)
+            # the set that is corrected is found by a key that does not come from Service::update_instance's answer (= the incoming client id) ...
+            gm = [g for g in util.mut_calls_on_field(u, 'client_instance_set', r'HashMap::<K, V, S, A>::get_mut$')
+                  if cfg.dominates_blocks(u, {g.bb}, s.bb) and not tr.op_tainted(g.args[1])]
+            # ... under a comparison that involves a client_id
+            def about_client(a):
+                if a[0] == 'call' and re.search(r'::(ne|eq)$', a[1] or ''):
+                    return any(cfg.origin_fields(u, x)[-1:] == ['client_id'] for x in a[3]['args'])
+                return a[0] == 'cmp' and 'client_id' in cfg.fmt_atom(a)
+            cmpc = [a for a in atoms if about_client(a)]
+            if gm and cmpc:
+                ok = True
+        ck.require(ok, R, 'update_instance:filed-under-the-stored-owner', u.where(),
+                   'after Service::update_instance kept the previous owner of an address (HTTP copy of a gRPC-registered instance) the key stays in the '
+                   'incoming client\'s set: the index lists for "2_G" an instance that belongs to "1_7"', 'corrected when the stored client_id differs')
